@@ -630,7 +630,7 @@ func init() {
 	mc.Register(&mc.Prop{
 		ID:    "C06",
 		Level: "exploration",
-		Rule: "(sequence sets of 1-2 rows, total length <= 4, over {A,c,-,0xE9,0xC3,0xA9} with at least one byte >= 0x80: ToUpper/ToLower/Unalign keep row lengths, fold the 7-bit bytes exactly and are idempotent;) bounded-exhaustive enumeration; on every case: ReverseComplement and ReverseComplementSequences for every subset of {row names} + {one unknown name}, each applied twice (involution), " +
+		Rule: cliStreamRule[1:] + " " + "(sequence sets of 1-2 rows, total length <= 4, over {A,c,-,0xE9,0xC3,0xA9} with at least one byte >= 0x80: ToUpper/ToLower/Unalign keep row lengths, fold the 7-bit bytes exactly and are idempotent;) bounded-exhaustive enumeration; on every case: ReverseComplement and ReverseComplementSequences for every subset of {row names} + {one unknown name}, each applied twice (involution), " +
 			"ToUpper and ToLower each applied twice (idempotence), Unalign; results compared row by row (names, order, residues, Length()) with the IUPAC complement derived from base sets. Cases: " +
 			"(i) all 256 byte values as a 1x1 alignment with the alphabet forced to nucleotide, also through align.Complement/Reverse and Sequence.Complement/Reverse; " +
 			"(ii) every single row of length 0..4 over the 35 symbols ACGTRYSWKMBDHVN acgtryswkmbdhvn - . * U u and of length 5..6 (quick) / 5..7 (thorough) over {A,c,K,m,B,-,.,*}, also through the Sequence-level functions; " +
@@ -643,8 +643,11 @@ func init() {
 			"X, ? and O (nucleotide-detected, no IUPAC complement) and the case of bytes >= 0x80 are not determined by the statement and are skipped",
 			"a named subset is given once per name, the unknown name first",
 		},
-		Tasks: c06Tasks,
+		Tasks: func(tier string) []mc.Task { return append(c06Tasks(tier), cliStreamTasks("C06")...) },
 		Replay: func(c *mc.Ctx, payload json.RawMessage) {
+			if cliStreamReplay(c, payload) {
+				return
+			}
 			var cs c06Case
 			if err := json.Unmarshal(payload, &cs); err != nil {
 				c.Fatal("bad payload: %v", err)
